@@ -553,6 +553,32 @@ pub fn erroneous_projects() -> Vec<Project> {
         }
         out.push(q);
     }
+    // the bound of a generic function of a library, at a call in another package
+    for (which, call, ok) in [
+        ("satisfied-by-an-impl-in-the-library", "Lib::need(1)", true),
+        ("satisfied-by-an-impl-in-main", "Lib::need(Mine { k: 2 })", true),
+        ("not-satisfied-primitive", "Lib::need(true)", false),
+        ("not-satisfied-struct", "Lib::need(Other { k: 2 })", false),
+        ("not-satisfied-dyn", "Lib::need(as_dyn())", false),
+        ("satisfied-through-mains-own-bound", "through(1)", true),
+        ("not-satisfied-through-an-unbounded-caller", "unbounded(1)", false),
+    ] {
+        out.push(Project {
+            name: format!("bound-across-packages-{}", which),
+            files: vec![
+                (
+                    "main.gom".into(),
+                    format!(
+                        "package Main\nimport Lib\n\nstruct Mine {{ k: int32 }}\nstruct Other {{ k: int32 }}\nimpl Lib::Tr for Mine {{ fn m(self: Mine) -> string {{ \"mine\" }} }}\nfn as_dyn() -> dyn Lib::Tr {{ let one: int32 = 1; one }}\nfn through[V: Lib::Tr](v: V) -> string {{ Lib::need(v) }}\nfn unbounded[V](v: V) -> string {{ {} }}\nfn main() {{ string_println({}) }}\n",
+                        if which == "not-satisfied-through-an-unbounded-caller" { "Lib::need(v)" } else { "\"u\"" },
+                        call
+                    ),
+                ),
+                ("Lib/lib.gom".into(), "package Lib\n\ntrait Tr { fn m(Self) -> string; }\nimpl Tr for int32 { fn m(self: int32) -> string { \"int\" } }\nfn need[U: Tr](u: U) -> string { Tr::m(u) }\n".into()),
+            ],
+            expected_stdout: if ok { Some(if which.contains("in-main") { "mine\n".into() } else { "int\n".into() }) } else { None },
+        });
+    }
     // name-resolution errors that only one file of a package has: imports are per file
     for (which, b_src) in [
         ("type-position", "package Util\n\nfn area(p: Lib::Point) -> int32 { p.x }\n"),
